@@ -1562,6 +1562,30 @@ fn generate(seed: u64, n: u64) -> Vec<String> {
             }
         }
     }
+    // the same at the ends of the u16 port space (seed C19-r6m1: a half-open `start..end.saturating_add(1)` loses
+    // port 65535): a recorded 65535 / 1 against a single requested port and against ranges that end / begin there
+    for rec_kind in ["np", "mp", "rp"] {
+        for req_kind in ["np", "mp", "rp"] {
+            for (p, reqs) in [
+                (65535u64, vec![(1u64, "65535".to_string()), (2, "65534-65535".to_string()), (3, "65533-65535".to_string())]),
+                (1u64, vec![(1u64, "1".to_string()), (2, "1-2".to_string())]),
+            ] {
+                for (k, req) in reqs {
+                    let first = {
+                        let f = |kind: &str| if kind == rec_kind { p.to_string() } else { "-".to_string() };
+                        format!("add count=1 np={} mp={} rp={} metrics=0 ver=1", f("np"), f("mp"), f("rp"))
+                    };
+                    let second = {
+                        let f = |kind: &str| if kind == req_kind { req.clone() } else { "-".to_string() };
+                        format!("add count={k} np={} mp={} rp={} metrics=0 ver=1", f("np"), f("mp"), f("rp"))
+                    };
+                    lines.push("reset".into());
+                    lines.push(with_faults(&first, &[]));
+                    lines.push(with_faults(&second, &[]));
+                }
+            }
+        }
+    }
     if std::env::var("C19_GEN_STATS").is_ok() { eprintln!("gen: after port clashes {}", lines.len()); }
     // the same from a RUNNING base: prefix add + start of every service, then all op sequences up to depth 2 with all
     // single-fault placements (a stop/remove/upgrade of a running service whose process died needs start; kill; <op>)
